@@ -123,7 +123,17 @@ class C19(SCheck):
                 ex.append((p, p + ln))
                 p += ln + r.choice([0, 0, 1, 1, 2, 3])
             lists.append(ex)
-        argv_map = ["xcpprobe", "libfs-map", "file"]
+        files = ["file"]
+        if r.random() < 0.4 and not huge:
+            # another file is mapped first by the same thread (more than 32 extents half of the time, so that its map is paged)
+            n1 = r.choice([1, 3, 33, 40, 70])
+            pos1, runs1 = 0, []
+            for j in range(n1):
+                runs1.append([pos1, 4096, r.randrange(1, 1 << 30)])
+                pos1 += 4096 * r.choice([2, 17])
+            ops.insert(0, gen.f_op("first", pos1, runs=runs1))
+            files = ["first", "file"]
+        argv_map = ["xcpprobe", "libfs-map"] + files
         argv_merge = ["xcpprobe", "libfs-merge"] + [",".join("%d-%d" % e for e in l) if l else "," for l in lists]
         return {"setup": ops, "bin": "probe", "steps": [{"argv": argv_map}, {"argv": argv_merge}], "kernel": kernel, "lists": lists, "max_events": 100000}
 
@@ -132,28 +142,21 @@ class C19(SCheck):
         out = res.get("stdout", "")
         if step_i == 0:
             pre = {e["p"]: e for e in res["pre"]}
-            segs = [tuple(x) for x in pre["file"].get("segs", [])]
-            size = pre["file"]["size"]
             post = {e["p"]: e for e in res["post"]}
-            if post.get("file", {}).get("h") != pre["file"].get("h"):
-                f.append(Finding("C19", "file-modified", "file", "the probed file changed"))
-            # a walk that ended in a reported error is incomplete by declaration: its partial list is not a claim
-            failed_tags = set(l.partition(" ")[0][:-4] for l in out.splitlines() if l.partition(" ")[0].endswith("-ERR"))
+            # one section per mapped file ("FILE <name>" header)
+            sections, cur = [], ("file", [])
             for line in out.splitlines():
-                tag, _, rest = line.partition(" ")
-                if tag in failed_tags:
+                if line.startswith("FILE "):
+                    if cur[1]:
+                        sections.append(cur)
+                    cur = (line[5:].strip(), [])
+                else:
+                    cur[1].append(line)
+            sections.append(cur)
+            for fname, lines in sections:
+                if fname not in pre:
                     continue
-                if tag in ("EXTENTS", "MERGED", "SEGMENTS"):
-                    rg = parse_ranges(rest)
-                    if not ordered(rg):
-                        f.append(Finding("C19", "unordered:" + tag.lower(), "file", "%s ranges are not ordered / overlap: %s" % (tag, rg[:8])))
-                    miss = covered(segs, rg)
-                    if miss is not None:
-                        f.append(Finding("C19", "data-outside-ranges:" + tag.lower(), "file",
-                                         "byte %d holds data but lies outside every %s range (size %d, %d data runs, %d ranges)" % (miss, tag, size, len(segs), len(rg))))
-                elif tag.endswith("-ERR") or tag == "ERR":
-                    if tag == "SEGMENTS-ERR" or tag == "EXTENTS-ERR" or tag == "MERGED-ERR":
-                        f.append(Finding("C19", "error:" + tag.lower(), "file", line))
+                f += self._judge_section(fname, lines, pre, post)
         else:
             lines = [l for l in out.splitlines() if l.startswith("M")]
             lists = case["lists"]
@@ -177,6 +180,33 @@ class C19(SCheck):
                     f.append(Finding("C19", "merge-invents-boundary", "", "merge_extents(%s) = %s" % (inp, outp)))
         return f
 
+
+    def _judge_section(self, fname, lines, pre, post):
+        f = []
+        segs = [tuple(x) for x in pre[fname].get("segs", [])]
+        size = pre[fname]["size"]
+        if post.get(fname, {}).get("h") != pre[fname].get("h"):
+            f.append(Finding("C19", "file-modified", fname, "the probed file changed"))
+        # a walk that ended in a reported error is incomplete by declaration: its partial list is not a claim
+        failed_tags = set(l.partition(" ")[0][:-4] for l in lines if l.partition(" ")[0].endswith("-ERR"))
+        for line in lines:
+            tag, _, rest = line.partition(" ")
+
+            if tag in failed_tags:
+                continue
+            if tag in ("EXTENTS", "MERGED", "SEGMENTS"):
+                rg = parse_ranges(rest)
+                if not ordered(rg):
+                    f.append(Finding("C19", "unordered:" + tag.lower(), fname, "%s ranges are not ordered / overlap: %s" % (tag, rg[:8])))
+                miss = covered(segs, rg)
+                if miss is not None:
+                    f.append(Finding("C19", "data-outside-ranges:" + tag.lower(), fname,
+                                     "byte %d holds data but lies outside every %s range (size %d, %d data runs, %d ranges)" % (miss, tag, size, len(segs), len(rg))))
+            elif tag.endswith("-ERR") or tag == "ERR":
+                if tag == "SEGMENTS-ERR" or tag == "EXTENTS-ERR" or tag == "MERGED-ERR":
+                    f.append(Finding("C19", "error:" + tag.lower(), fname, line))
+        return f
+
     def run_item(self, sim, item):
         """after the fault-free run: one errno at sampled lseek / FIEMAP calls of the probe; libfs may then report an error, but a map it
         does return must still cover every data byte"""
@@ -189,7 +219,8 @@ class C19(SCheck):
         res, _, _ = run_step(sim, case, 0, plan, "sandbox")
         sites = [ev for ev in res.get("events", []) if ev.get("site") is not None and (ev["c"] == "lseek" or (ev["c"] == "ioctl" and ev.get("req") == "FIEMAP"))]
         rr = random.Random(plan["seed"] ^ 0x19)
-        cands = [(ev, e) for ev in sites for e in errnos_for(ev)]
+        # (EOPNOTSUPP from a later FIEMAP page: "unsupported" must mean no map at all, never a partial one)
+        cands = [(ev, e) for ev in sites for e in (errnos_for(ev) + (["EOPNOTSUPP"] if ev["c"] == "ioctl" else []))]
         rr.shuffle(cands)
         for ev, e in cands[:nf]:
             p2 = dict(plan, faults=[{"site": ev["site"], "errno": e}])
